@@ -153,6 +153,13 @@ func TestC11Pairs(t *testing.T) {
 	rapid.Check(t, func(rt *rapid.T) {
 		c := caseC11{Prefix: kit.GenHistory(rt, prefixOpt)}
 		c.Transfer = genBroadTransfer(rt, w)
+		if kit.Chance(rt, "passthrough", 30) {
+			// a passthrough payload, with the parameter raised (mostly) far enough to allow it
+			n := pick(rt, "passthrough/len", []int{1, 8, 64})
+			c.Transfer.Route.Passthrough = make([]byte, n)
+			limit := uint32(pick(rt, "passthrough/limit", []int{n, n, n + 10, 1000, n - 1}))
+			c.Prefix = append(c.Prefix, kit.Step{Admin: &kit.Admin{Kind: "update_params", MaxPassthrough: limit}})
+		}
 		n := 1 + rapid.IntRange(0, 3).Draw(rt, "deposits/n")
 		for i := 0; i < n; i++ {
 			d := kit.Env{Kind: "deposit", User: pick(rt, fmt.Sprintf("dep/%d/user", i), kit.PlainUsers)}
